@@ -13,7 +13,9 @@ ev    := `o:<conn>` open | `h:<conn>` control handshake, auth ok | `f:<conn>` co
          the connection ends: `c:<conn>` CloseConnection called directly | `e:<conn>` adapter read loop ended
          (BaseAdapter.cleanupConnection) | `d:<conn>` Disconnect command | `s:<conn>` heartbeat-timeout sweep |
          `k:<conn>` KickOldControlConnection(client, conn) (duplicate-login eviction of the node's other connection) |
-         `x:<node>` session manager shutdown
+         `x:<node>` session manager shutdown |
+         `q:<node>.<client>` FindClientNode starts on that node: its index read happens now | `r:<node>.<client>` it
+         continues: record read and answer (flag ok = it answered a connection)
 conn  := `<node>.<client>.<serial>`
 obs   := one token per event: `<ok|er>|<x>=<ans>/<route>,…(one per node)…;<x>=…`   (ok = the entry point returned nil; for `d:`/`s:`: the call closed the connection)
 ans   := `-` not connected | `inv` invalid client id | `bad` decode error | `<node>@<conn>`
@@ -52,6 +54,14 @@ def parseEv (tok : String) : Option Ev :=
   | ["s", c] => (parseConn c).map (fun c => .close c .sweep)
   | ["k", c] => (parseConn c).map .kick
   | ["x", n] => n.toNat?.map .shutdown
+  | ["q", a] =>
+    match a.splitOn "." with
+    | [j, x] => do let j ← j.toNat?; let x ← x.toNat?; pure (.lookBegin j x)
+    | _ => none
+  | ["r", a] =>
+    match a.splitOn "." with
+    | [j, x] => do let j ← j.toNat?; let x ← x.toNat?; pure (.lookEnd j x)
+    | _ => none
   | ["t", d] => d.toNat?.map .tick
   | _ => none
 
